@@ -136,6 +136,47 @@ def main():
             if outs[0] != rec['hash']:
                 event('generator-object-differs-from-int-seed:' + call.name)
             event('generator-probes')
+        # state keyed on object identity: edit the array arguments IN PLACE
+        # (same objects), call again, and compare with a call on fresh deep
+        # copies of the edited arguments
+        if call.inplace is None and call.name not in ('rand_custom',) and \
+                not call.private:
+            rng = np.random.default_rng(seed)
+            a1, k1 = call.build(rng)
+            try:
+                call.execute(teneva, a1, dict(k1))        # first contact
+                arrs = [x for _, x in sanit.walk_arrays((a1, {kk: vv for kk, vv
+                    in k1.items() if kk not in ('info', 'cache')}))
+                    if x.dtype.kind == 'f' and x.size and x.flags.writeable]
+                if arrs:
+                    for x in arrs[:6]:
+                        # non-uniform in-place edit (exact in binary): a plain
+                        # rescaling leaves e.g. sampling distributions unchanged
+                        pat = 1. + 0.5 * (np.arange(x.size).reshape(x.shape)
+                            % 2)
+                        np.multiply(x, pat, out=x)
+                    if 'info' in k1:
+                        k1['info'] = {}
+                    if 'cache' in k1 and k1['cache'] is not None:
+                        k1['cache'] = {}
+                    a2, k2 = copy.deepcopy((a1, k1))
+                    try:
+                        r_same = ('ok', sanit.canon_hash(call.execute(teneva,
+                            a1, dict(k1))))
+                    except Exception as ex:
+                        r_same = ('exc', type(ex).__name__)
+                    try:
+                        r_copy = ('ok', sanit.canon_hash(call.execute(teneva,
+                            a2, dict(k2))))
+                    except Exception as ex:
+                        r_copy = ('exc', type(ex).__name__)
+                    judged('no-identity-cache', r_same == r_copy,
+                        f'{what}: after the arguments were edited in place the '
+                        'call on the same objects differs from the call on '
+                        f'fresh copies of them ({r_same} vs {r_copy}): state '
+                        'is kept per object identity')
+            except Exception:
+                event('identity-probe-not-applicable')
         if not call.seeded and call.name != 'rand_custom':
             hs = []
             for mode in ('nan', 'big'):
